@@ -291,6 +291,9 @@ fn run_cut_short(cx: &Ctx, o: &mut Outcome) -> bool {
 /// out so that the oracle never demands more than the statement.)
 fn clearly_unparseable(req: &[u8], buf: usize) -> Option<&'static str> {
     let seen = &req[..req.len().min(buf)];
+    // empty lines before the request line are a matter of leniency too (RFC 9112 2.2 lets a server skip them)
+    let start = seen.iter().position(|&c| !(c == b'\r' || c == b'\n' || c == b' ' || c == b'\t')).unwrap_or(seen.len());
+    let seen = &seen[start..];
     let line_end = seen.iter().position(|&c| c == b'\n').unwrap_or(seen.len());
     let line = &seen[..line_end];
     let line = if line.ends_with(b"\r") { &line[..line.len() - 1] } else { line };
@@ -1464,6 +1467,18 @@ fn c11(cx: &Ctx, o: &mut Outcome) {
         let rq = &cx.reqs[i];
         let origin = rq.header("Origin");
         let acs: Vec<&(String, String)> = resp.headers.iter().filter(|(n, _)| n.to_ascii_lowercase().starts_with("access-control-")).collect();
+        // whatever the request looks like: with the switch off, the only origins ever named in a grant are configured ones
+        if !cfg.allow_all {
+            for a in resp.get_all("Access-Control-Allow-Origin") {
+                if !cfg.origins.iter().any(|x| x == a) {
+                    o.verdicts.push(v("C11", "grant_names_an_origin_that_is_not_configured", format!("{} {} (allow_all=false origins={:?}): Access-Control-Allow-Origin: {:?}", rq.method, rq.target, cfg.origins, a), Some(i)));
+                }
+            }
+        }
+        // several Origin lines: which one counts is the server's choice - only the rule above applies
+        if rq.headers.iter().filter(|(n, _)| n.eq_ignore_ascii_case("origin")).count() > 1 {
+            continue;
+        }
         let get = |n: &str| resp.get(n);
         let req_txt = format!("{} {} Origin: {:?}", rq.method, rq.target, origin);
         let cfg_txt = format!("allow_all={} origins={:?}", cfg.allow_all, cfg.origins);
